@@ -176,6 +176,23 @@ func (w *Worktree) PullContext(ctx context.Context, o *PullOptions) error {
 		return err
 	}
 
+	// The merge reset below is refused when there are unstaged changes.
+	// Find that out before the branch is moved, so that a refused pull
+	// leaves the repository untouched.
+	cfg, err := w.r.Config()
+	if err != nil {
+		return err
+	}
+
+	unstaged, err := w.containsUnstagedChanges(cfg)
+	if err != nil {
+		return err
+	}
+
+	if unstaged {
+		return ErrUnstagedChanges
+	}
+
 	if err := w.updateHEAD(ref.Hash()); err != nil {
 		return err
 	}
